@@ -702,9 +702,10 @@ class Molecule(nx.Graph):
                 .format(self.nrexcl, molecule.nrexcl)
             )
         if self.nodes():
-            if not self.max_node:
-                # hopefully it is a small graph when this is called.
-                self.max_node = max(self)
+            # The cached value goes stale when nodes are added or removed by
+            # other means than this method (`add_nodes_from`, `add_edge`,
+            # `remove_node`, ...), so it cannot be trusted: recompute it.
+            self.max_node = max(self)
 
             # We assume that the last id is always the largest.
             last_node_idx = self.max_node
